@@ -35,6 +35,7 @@ pub fn requirements(_tier: Tier) -> Vec<(&'static str, u64)> {
         ("values:parsed", 10_000),
         ("values:built", 10_000),
         ("typed-values", 1_000),
+        ("escape-next-to-long-plain-run", 2_000),
     ]
 }
 
@@ -211,6 +212,23 @@ fn exhaustive(ctx: &mut Ctx) {
         }
         if ctx.worker == 0 {
             ctx.st.exhaustive.push(json!({"name": format!("every ordered triple over {} grammar / escaping characters in each of the 5 positions", T.len()), "size": n * 5, "completed": true}));
+        }
+    }
+    // escapes next to long plain runs (buffered / chunked writers show at their buffer sizes)
+    if ctx.worker == 0 {
+        for pos in 0..5 {
+            for esc in ["@", " ", "é", "%", "😀"] {
+                for n in [22usize, 23, 24, 31, 32, 33, 63, 64, 65, 66, 127, 128, 129, 255, 256, 257, 1000, 4096] {
+                    let run = "a".repeat(n);
+                    for text in [format!("{esc}{run}"), format!("{run}{esc}"), format!("{esc}{run}{esc}"), format!("{run}{esc}{run}"), run.clone()] {
+                        ctx.st.evaluations += 1;
+                        ctx.st.count("escape-next-to-long-plain-run");
+                        if let Some(f) = judge_placed(pos, &text) {
+                            report_placed(ctx, pos, &text, f);
+                        }
+                    }
+                }
+            }
         }
     }
     // every qualifier-key character (keys are never escaped, and are lower-cased)
